@@ -25,13 +25,13 @@ def run(prog, chk):
         "kerning groups are intersected with the (filtered) glyph set and every recorded pair has each side either a known group or a glyph of the glyph set; GDEF classes are restricted to the ordered glyph set; writers take the glyph set from the compiler (R13.4)",
     ]
     chk.not_decided += ["that the remaining glyphs render identically (decomposition arithmetic is fontTools')"]
-    r131(prog, chk)
-    r132(prog, chk)
-    r133(prog, chk)
-    r134(prog, chk)
-    r135(prog, chk, "R13.5")
+    chk.guard(r131, prog, chk)
+    chk.guard(r132, prog, chk)
+    chk.guard(r133, prog, chk)
+    chk.guard(r134, prog, chk)
+    chk.guard(r135, prog, chk, "R13.5")
     from .c15 import check_single_decomposer
-    check_single_decomposer(prog, chk, "R13.6")
+    chk.guard(check_single_decomposer, prog, chk, "R13.6")
 
 
 # ----------------------------------------------------------------------------- R13.1
